@@ -87,7 +87,9 @@ def h_shift(e, cfg):
         for pos in np.ndindex(*dshape):
             da[pos] = K(dt) * int(ks[pos]) if not (kind == "lateral" and pos[0] == pos[1]) else F(0)     # a lateral connection masks its self-delays to 0
     else:
-        dl = e.sym(dshape, torch.float32, "d", lo=0, hi=min(K(mx), F(mx)))      # never above the configured maximum (float32(3 * 1.3) is)
+        # never above the configured maximum; where the maximum is not a float32 number (3 * 1.3) a hair below it, because the float32
+        # delay parameter rounds values next to it to float32(max) > max, which the synapse rightly treats as out of range
+        dl = e.sym(dshape, torch.float32, "d", lo=0, hi=(K(mx) if K(mx) == F(mx) else min(K(mx), F(mx)) - F(1, 1000)))
         D.delay = dl
         da = e.read(D.delay)
         if cfg["delays"] == "grid":
@@ -109,7 +111,7 @@ def h_shift(e, cfg):
             e.tag(phase="after-clear")
         if cfg.get("reassign") is not None and t == cfg["reassign"]:
             # the learned delays are re-assigned through the property while the connection is running (as an updater does)
-            dl2 = e.sym(dshape, torch.float32, "d2", lo=0, hi=min(K(mx), F(mx)))
+            dl2 = e.sym(dshape, torch.float32, "d2", lo=0, hi=(K(mx) if K(mx) == F(mx) else min(K(mx), F(mx)) - F(1, 1000)))
             D.delay = dl2
             da = e.read(D.delay)
             e.tag(phase="after-reassigning-delays")
@@ -206,9 +208,9 @@ def checks(tier):
                             continue
                         if not th and syn == "delta-nearest" and kind != "dense":
                             continue
-                        for B in ((1, 2) if th else (1,)):
+                        for B in ((1, 2) if (th and kind == "dense") else (1,)):
                             ac = 3 if th else (2 if (delays in ("zero", "grid") or kind == "dense") else 0)
-                            cfgs.append(dict(kind=kind, syn=syn, dt=dt, max=mmul * dt, delays=delays, B=B, bias=(kind == "dense"), T=(5 if th else 3), after_clear=ac))
+                            cfgs.append(dict(kind=kind, syn=syn, dt=dt, max=mmul * dt, delays=delays, B=B, bias=(kind == "dense"), T=(4 if th else 3), after_clear=ac))
                             if kind == "conv" and delays != "zero" and (th or (syn in ("delta", "single") and dt == 1.3)):
                                 # a kernel with both sides > 1: the flattening order of the per-synapse delays matters
                                 cfgs.append(dict(kind=kind, syn=syn, dt=dt, max=mmul * dt, delays=delays, B=B, bias=False, T=(3 if th else 2), geom=(2, 3, 2, 2)))
@@ -222,10 +224,12 @@ def checks(tier):
     # concrete Python-float delays k * dt at step times float32 cannot represent (delay / dt lands an ulp off the integer)
     for kind in ("dense", "direct", "lateral", "conv"):
         for syn in (tuple(SYN) if th else ("delta", "single")):
-            for dt, mmul, steps in (((1.3, 3, (3, 1, 0, 2)), (1.3, 7, (7, 3, 6, 0)), (0.1, 3, (3, 1, 2, 3)), (1.1, 5, (5, 3, 0, 4))) if th else ((1.3, 3, (3, 1, 0, 2)),)):
+            for dt, mmul, steps in (((1.3, 3, (3, 1, 0, 2)), (1.3, 7, (7, 3, 5, 0)), (0.1, 3, (3, 1, 2, 3)), (1.1, 5, (5, 3, 0, 4))) if th else ((1.3, 3, (3, 1, 0, 2)),)):
                 if not th and kind in ("lateral", "conv") and syn != "delta":
                     continue
                 cfgs.append(dict(kind=kind, syn=syn, dt=dt, max=mmul * dt, delays="concrete", steps=steps, B=1, bias=False, T=(mmul + 2), after_clear=0))
+    # KNOWN FINDING (known_findings.json, C06-float32-snap-k6): delay = 6 * 1.3 at the default tolerance 0
+    cfgs.append(dict(kind="dense", syn="delta", dt=1.3, max=6 * 1.3, delays="concrete", steps=(6, 3, 0, 2), B=1, bias=False, T=8, after_clear=0, known="k6-dt1.3"))
     o = {"div_policy": "xr", "query_timeout_ms": 180000}
     return [Check("shift", h_shift, cfgs, opts=o, timeout_s=2400)]
 
@@ -233,6 +237,6 @@ def checks(tier):
 BOUNDS = {
     "quick": {"connections": ["dense 2->2", "direct 2", "lateral 2", "conv 1x2x2 k(1,2) F=2; 1x2x3 k(2,2); 2x2x2 k(1,2) (two channels)"], "synapses": 5, "dt": [1.0, 1.3], "max delay": "2dt",
               "delay tensor": "symbolic per synapse: any real in [0,max] / constrained to the grid / all zero; and concrete Python-float multiples k*dt (k <= 3, dt = 1.3) whose float32 quotient is an ulp off the integer", "steps": "3, then clear() and 2 more (grid/zero delays, and every dense configuration)", "batch": 1},
-    "thorough": {"max delay": ["dt", "2dt", "3dt"], "steps": "5, then clear() and 3 more", "batch": [1, 2]},
+    "thorough": {"max delay": ["dt", "2dt", "3dt"], "steps": "4, then clear() and 3 more", "batch": "1 (2 for dense)"},
 }
 OUTSIDE = ["interpolation tolerance other than 0", "float32 snapping of delay/dt for SYMBOLIC delays (exact reals; grid points are k * float32(dt)) - concrete k*dt delays run through the real float32 index arithmetic"]
